@@ -1252,6 +1252,18 @@ impl<C: Config, Q: Query> Snapshot<C, Q> {
     }
 }
 
+#[cfg(feature = "verif_hooks")]
+impl<C: Config> Database<C> {
+    /// The recorded node info of a query, if any (verification harness
+    /// only).
+    pub(super) async fn peek_node_info(
+        &self,
+        query_id: &QueryID,
+    ) -> Option<NodeInfo> {
+        self.node_info.get(query_id).await
+    }
+}
+
 impl<C: Config> Database<C> {
     pub(super) async fn mark_dirty_forward_edge_from(
         &self,
